@@ -8,7 +8,8 @@
 From Coq Require Import List NArith ZArith Bool String Lia.
 From GmsmVerif Require Import Lib.Outcome Dec.Access Dec.DecSpec Dec.ByteModels Dec.ByteProofs
   Gen.PKCS7Tables P7.P7Model P7.P7Proofs P12.MacModel P12.MacProofs
-  P12.RC2Model P12.RC2Proofs P12.PbkdfSpec P12.PbkdfModel P12.PbkdfProofs P12.BmpModel P12.BmpProofs.
+  P12.RC2Model P12.RC2Proofs P12.PbkdfSpec P12.PbkdfModel P12.PbkdfProofs P12.BmpModel P12.BmpProofs
+  P12.ContainerModel P12.ContainerProofs P12.ContainerInst.
 Import ListNotations.
 Local Open Scope nat_scope.
 Notation length := List.length (only parsing).
@@ -235,3 +236,124 @@ Example C17_p12_examples :
   decodeBMPString [0x4e; 0x2d; 0x65; 0x87; 0; 0x41; 0; 0]%N = Ok [0x4e2d; 0x6587; 0x41]%N /\
   bmpString [0x41; 0x1F511]%N = Err 1.
 Proof. vm_compute. repeat split; reflexivity. Qed.
+
+(* ================= 6. PKCS#12: the whole container ============================================ *)
+(* Encode / Decode / DecodeAll at the level of safe bags (P12/ContainerModel.v): certificate bags encrypted
+   with PBE-SHA1-RC2-40 (the RC2 model of section 5, CBC and padding modelled concretely), the key bag
+   with PBE-SHA1-3DES (3DES abstract: a block cipher whose Decrypt inverts Encrypt), keys and IVs from
+   the model of pbkdf.go (proved equal to RFC 7292 B.2), MAC over the authenticated safe.  SHA-1 is any
+   function with 20 output bytes; encoding/asn1 is a codec per structure (unmarshal after marshal is the
+   identity); HMAC-SHA1 is any function. *)
+Section C17_P12_Container.
+  Variable H : list N -> list N.
+  Hypothesis H_len : forall x, length (H x) = 20.
+  Hypothesis H_bytes : forall x, bytes_ok (H x).
+  Variable des_enc des_dec : list N -> list N -> list N.
+  Hypothesis des_ok : forall key x, length x = 8 -> bytes_ok x ->
+    length (des_enc key x) = 8 /\ bytes_ok (des_enc key x) /\ des_dec key (des_enc key x) = x.
+  Variable hmac_sha1 : list N -> list N -> list N.
+  Variables Key Cert : Type.
+  Variable cert_raw : Cert -> list N.
+  Variable parse_certs : list N -> outcome (list Cert).
+  Variable ser_key : Key -> outcome (list N).
+  Variable de_key : list N -> outcome Key.
+  Variable ser_blob : pbeBlob -> list N.
+  Variable de_blob : list N -> outcome pbeBlob.
+  Variable ser_certbag : list N -> list N.
+  Variable de_certbag : list N -> outcome (list N).
+  Variable ser_bags : list safeBag -> list N.
+  Variable de_bags : list N -> outcome (list safeBag).
+  Variable ser_authsafe : list safeCI -> list N.
+  Variable de_authsafe : list N -> outcome (list safeCI).
+  Hypothesis key_codec : forall k b, ser_key k = Ok b -> de_key b = Ok k /\ bytes_ok b.
+  Hypothesis blob_codec : forall e, de_blob (ser_blob e) = Ok e.
+  Hypothesis certbag_codec : forall b, de_certbag (ser_certbag b) = Ok b.
+  Hypothesis bags_codec : forall l, de_bags (ser_bags l) = Ok l /\ bytes_ok (ser_bags l).
+  Hypothesis authsafe_codec : forall l, de_authsafe (ser_authsafe l) = Ok l.
+  Hypothesis certs_parse : forall c, parse_certs (cert_raw c) = Ok [c].
+
+  Let kdf := kdf_inst H.
+  Let create := create_inst des_enc des_dec.
+  Let Encode := Encode kdf create hmac_sha1 Key Cert cert_raw ser_key ser_blob ser_certbag ser_bags ser_authsafe.
+  Let DecodeAll := DecodeAll kdf create hmac_sha1 Key Cert parse_certs de_key de_blob de_certbag de_bags de_authsafe.
+  Let Decode := ContainerModel.Decode kdf create hmac_sha1 Key Cert parse_certs de_key de_blob de_certbag de_bags de_authsafe.
+
+  (* every key, certificate, list of CA certificates, BMP-encoded password and salts the encoder accepts:
+     DecodeAll with the same password returns the key and all certificates, in order *)
+  Theorem C17_p12_roundtrip :
+    forall k certificate caCerts pw s1 s2 s3 pfx, bytes_ok pw ->
+      Encode k certificate caCerts pw s1 s2 s3 = Ok pfx ->
+      DecodeAll pfx pw = Ok (k, certificate :: caCerts).
+  Proof.
+    intros; unfold DecodeAll, Encode in *; eapply p12_roundtrip_all;
+      try eassumption; first [unfold kdf; apply kdf_inst_ok; assumption | unfold create; apply create_inst_ok; assumption].
+  Qed.
+
+  (* Decode (one certificate) returns the key and the certificate of a bundle without CA certificates ... *)
+  Theorem C17_p12_roundtrip_decode :
+    forall k certificate pw s1 s2 s3 pfx, bytes_ok pw ->
+      Encode k certificate [] pw s1 s2 s3 = Ok pfx -> Decode pfx pw = Ok (k, certificate).
+  Proof.
+    intros; unfold Decode, Encode in *; eapply p12_roundtrip_one;
+      try eassumption; first [unfold kdf; apply kdf_inst_ok; assumption | unfold create; apply create_inst_ok; assumption].
+  Qed.
+
+  (* ... and refuses a bundle with CA certificates instead of answering with another certificate as the leaf
+     (the rule repaired in 03f783d) *)
+  Theorem C17_p12_decode_refuses_extra_certificates :
+    forall k certificate ca caCerts pw s1 s2 s3 pfx, bytes_ok pw ->
+      Encode k certificate (ca :: caCerts) pw s1 s2 s3 = Ok pfx -> Decode pfx pw = Err 40.
+  Proof.
+    intros; unfold Decode, Encode in *; eapply p12_decode_refuses_extra_certificates;
+      try eassumption; first [unfold kdf; apply kdf_inst_ok; assumption | unfold create; apply create_inst_ok; assumption].
+  Qed.
+
+  (* a second key bag is an error in Decode and DecodeAll, a second certificate bag in Decode, whatever the bags hold *)
+  Theorem C17_p12_exactly_one_bag :
+    forall one v rest pw k0 key c acc,
+      bag_loop kdf create Key Cert parse_certs de_key de_blob de_certbag one (mkBag BagKey v :: rest) pw (Some k0) acc = Err 42 /\
+      bag_loop kdf create Key Cert parse_certs de_key de_blob de_certbag true (mkBag BagCert v :: rest) pw key (c :: acc) = Err 40.
+  Proof. intros. split; reflexivity. Qed.
+
+  (* no substitution: what DecodeAll returns is computed from the received authenticated safe, which carries a
+     matching MAC under the key derived from the given password *)
+  Theorem C17_p12_no_substitution :
+    forall pfx pw k certs, DecodeAll pfx pw = Ok (k, certs) ->
+      exists content pw' bags,
+        pfx_authSafeContent pfx = Some content /\ (pw' = pw \/ (pw = [0; 0]%N /\ pw' = [])) /\
+        md_digest (pfx_mac pfx) = hmac_sha1 (kdf_mac kdf (md_salt (pfx_mac pfx)) pw' (md_iterations (pfx_mac pfx))) content /\
+        after_mac kdf create de_bags de_authsafe content pw' = Ok (bags, pw') /\
+        (do res <- bag_loop kdf create Key Cert parse_certs de_key de_blob de_certbag false bags pw' None [];
+         finish Key Cert res) = Ok (k, certs).
+  Proof.
+    exact (p12_no_substitution kdf create hmac_sha1 Key Cert parse_certs de_key de_blob de_certbag de_bags de_authsafe).
+  Qed.
+
+  (* another password opens the bundle only if HMAC under its derived key collides with the genuine MAC *)
+  Theorem C17_p12_wrong_password :
+    forall k certificate caCerts pw s1 s2 s3 pfx pw2 r,
+      Encode k certificate caCerts pw s1 s2 s3 = Ok pfx -> DecodeAll pfx pw2 = Ok r ->
+      exists content pw2', pfx_authSafeContent pfx = Some content /\ (pw2' = pw2 \/ (pw2 = [0; 0]%N /\ pw2' = [])) /\
+        hmac_sha1 (kdf_mac kdf s3 pw 1) content = hmac_sha1 (kdf_mac kdf s3 pw2' 1) content.
+  Proof.
+    intros; unfold DecodeAll, Encode in *; eapply p12_wrong_password;
+      try eassumption; first [unfold kdf; apply kdf_inst_ok; assumption | unfold create; apply create_inst_ok; assumption].
+  Qed.
+End C17_P12_Container.
+Print Assumptions C17_p12_roundtrip.
+Print Assumptions C17_p12_roundtrip_decode.
+Print Assumptions C17_p12_decode_refuses_extra_certificates.
+Print Assumptions C17_p12_exactly_one_bag.
+Print Assumptions C17_p12_no_substitution.
+Print Assumptions C17_p12_wrong_password.
+
+(* non-vacuity: the password-based encryption with the real RC2 model, the model of pbkdf.go over a toy
+   20-byte hash, CBC and padding, evaluated (5-byte key, 8-byte IV, 2048 iterations each) *)
+Example C17_p12_pbe_example :
+  let kdf := kdf_inst (toy_hash 20) in
+  let create := create_inst (fun k b => b) (fun k b => b) in
+  (do e <- pbEncrypt kdf create (mkBlob PBERC2 [1;2;3;4;5;6;7;8]%N 2048 []) [10;20;30;40;50;60;70;80;90]%N [0;112;0;119;0;0]%N;
+   pbDecrypt kdf create e [0;112;0;119;0;0]%N) = Ok [10;20;30;40;50;60;70;80;90]%N /\
+  (do e <- pbEncrypt kdf create (mkBlob PBERC2 [1;2;3;4;5;6;7;8]%N 2048 []) [10;20;30;40;50;60;70;80;90]%N [0;112;0;119;0;0]%N;
+   Ok (length (pb_data e))) = Ok 16.
+Proof. vm_compute. split; reflexivity. Qed.
